@@ -284,12 +284,38 @@ func genGoPayloadNonNil(r *Rng) []byte {
 	return p
 }
 
+// held: encoder results a caller kept while it went on encoding other values; they must never change
+var held []struct {
+	out, copy []byte
+	op        string
+}
+
+func c08Held(c *Collector, out []byte, op string) {
+	for _, h := range held {
+		if !bytes.Equal(h.out, h.copy) {
+			c.Fail("C08/earlier-output-changed", fmt.Sprintf("bytes returned by an earlier encoder call changed while other values were encoded: were %x, now %x", trimTo(h.copy, 60), trimTo(h.out, 60)), map[string]any{"op": trunc(h.op, 400)})
+			held = nil
+			break
+		}
+	}
+	if out != nil {
+		held = append(held, struct {
+			out, copy []byte
+			op        string
+		}{out, append([]byte{}, out...), op})
+		if len(held) > 64 {
+			held = held[1:]
+		}
+	}
+}
+
 func c08Check(c *Collector, class, op, obs string, out []byte, err error, panicked bool, kind string, again func() ([]byte, error), reps int, inModel bool) {
 	rep := map[string]any{"op": trunc(op, 700)}
 	if panicked {
 		c.Fail("C08/panic", "encoder panicked", rep)
 		return
 	}
+	c08Held(c, out, op)
 	addCase(c, class, op, obs, err == nil)
 	for i := 0; i < reps; i++ {
 		o2, e2 := again()
@@ -400,6 +426,51 @@ func runC09(c *Collector, r *Rng, thorough bool) {
 		n = 8000
 	}
 	keys := realKeySet(r)
+	// a message obtained through VerifyHashEnvelope is a decoded message like any other: re-encoding it reproduces
+	// the received header bytes (here a protected map another implementation spelled differently) and stays valid
+	for i := 0; i < n/5+2; i++ {
+		k := keys[i%len(keys)]
+		env, err := cose.SignHashEnvelope(r, k.signer(), cose.Headers{Protected: cose.ProtectedHeader{cose.HeaderLabelAlgorithm: k.alg, int64(4): r.Bytes(3)}},
+			cose.HashEnvelopePayload{HashAlgorithm: cose.AlgorithmSHA256, HashValue: r.Bytes(32), Location: "loc"})
+		if err != nil {
+			continue
+		}
+		t, perr := refParseFull(env)
+		if perr != nil {
+			continue
+		}
+		b := t.Kids[0]
+		if pm, err := refParseFull(b.Kids[0].Str); err == nil && pm.Maj == 5 && i%3 != 0 {
+			pm.RandWidths(r, 1, 1, nil)
+			pm.ShuffleMaps(r)
+			b.Kids[0].Str = pm.Ser()
+			b.Kids[0].Width = pickW(uint64(len(b.Kids[0].Str)), pick(r, []int{-1, 1, 2}))
+			tbs := refArray(refTstr("Signature1"), refBstr(b.Kids[0].Str), refBstr(nil), refBstr(b.Kids[2].Str))
+			b.Kids[3] = wBstr(refSign(r, k, tbs), -1)
+		}
+		in := t.Ser()
+		m, verr := cose.VerifyHashEnvelope(k.verifier(), append([]byte{}, in...))
+		c.Eval("reencode/hashenvelope", hx(in), verr == nil)
+		if verr != nil {
+			continue
+		}
+		rep := map[string]any{"kind": "VerifyHashEnvelope", "data": hx(in)}
+		out, merr := m.MarshalCBOR()
+		if merr != nil {
+			c.Fail("C09/reencode-refused", "the message returned by VerifyHashEnvelope cannot be encoded again: "+merr.Error(), rep)
+			continue
+		}
+		if want := renorm("DSign1", t); !bytes.Equal(want, out) {
+			c.Fail("C09/reencode-differs", fmt.Sprintf("re-encoding the message returned by VerifyHashEnvelope changed header bytes: got %x want %x", out, want), rep)
+		}
+		if err := m.Verify(nil, k.verifier()); err != nil {
+			c.Fail("C09/verify-after-reencode", "the message returned by VerifyHashEnvelope does not verify: "+err.Error(), rep)
+		}
+		var m2 cose.Sign1Message
+		if err := m2.UnmarshalCBOR(out); err != nil || m2.Verify(nil, k.verifier()) != nil {
+			c.Fail("C09/reencoded-rejected", "the re-encoded hash envelope no longer decodes and verifies", rep)
+		}
+	}
 	for i := 0; i < n; i++ {
 		kind := pick(r, []string{"DSign1", "DSign1U", "DSignature", "DSignMsg"})
 		t := genTreeOfKind(r, kind, defaultCfg)
